@@ -50,7 +50,9 @@ CHECKS["C03"] = dict(
     technique="explicit-state BFS to fixpoint (relative-time state keys) plus exact-key depth-bounded BFS on the real TokenLimiter vs an exact-rational leaky-bucket debt monitor",
     text="For each rate set (integral and non-integral time per token, burst up to 5x average, 2s period, multi-rate) and clock phase, every history of Req(amount)/Advance(d) over the alphabet is explored on the real limiter to a fixpoint of the relative-time state space (histories of unbounded length, incl. traffic sustained beyond the entry lifetime); the monitor debt D<=burst+1 is equivalent to the interval bound.",
     note="frozen clock, one instant per call (A2); translation invariance assumed for the relative keys and cross-checked by the exact-key search; one source (multi-source behaviour is C14)",
-    parts=[dict(bin="vh", part="c03", shards=16, gang=True, budget=dict(quick=100, thorough=1500))])
+    parts=[dict(bin="vh", part="c03", shards=16, gang=True, budget=dict(quick=100, thorough=1500)),
+           # "however the requests are timed": concurrent requests of one source at one instant (incl. first contact)
+           dict(bin="vsched-race", part="c14s", shards=16, budget=dict(quick=100, thorough=1500))])
 CHECKS["C13"] = dict(
     level="model_checking", engine="xstate", design_ref="DESIGN.md §5 C13",
     technique="same reachable-state graph as C03; differential continuation probes (real code against itself) from every reachable state",
